@@ -42,7 +42,27 @@ BUILTIN_NAMES = {
     "map", "reversed", "range", "tuple", "list", "str", "repr", "super", "type", "iter", "id", "callable", "hasattr",
     "getattr", "setattr", "object", "sum", "any", "all", "enumerate", "zip", "abs", "print", "sorted", "dict", "set",
     "frozenset", "divmod", "cast",
+    # primitives for trusted model code (stubs)
+    "nondet_bool", "nondet_int", "nondet_bytes", "nondet_obj", "nondet_real", "assume", "require", "raise_any", "ghost_event",
 }
+
+
+class _OtherException(Exception):
+    """Representative of 'some Exception subclass nobody names in a handler'."""
+
+
+class _OtherBaseException(BaseException):
+    """Representative of 'some BaseException that is not an Exception' other than the named ones."""
+
+
+import asyncio as _asyncio  # noqa: E402
+
+EXC_REPRESENTATIVES: list[type] = [
+    OSError, ConnectionError, ConnectionAbortedError, ConnectionResetError, BrokenPipeError, TimeoutError, BlockingIOError, InterruptedError,
+    ValueError, TypeError, KeyError, IndexError, AttributeError, EOFError, UnicodeDecodeError, UnicodeEncodeError, RecursionError, MemoryError,
+    RuntimeError, NotImplementedError, AssertionError, LookupError, ArithmeticError, _OtherException,
+    _asyncio.CancelledError, KeyboardInterrupt, SystemExit, GeneratorExit, _OtherBaseException,
+]
 SPEC_NAMES = {
     "old", "result", "exc", "forall", "exists", "implies", "ite", "occ", "pm", "first", "isfirst", "nofirst", "flat",
     "no_occ", "iff", "Resync", "rk", "view_lo", "view_hi", "view_of", "orempty", "same_object", "unit", "empty_seq", "fn", "typeof", "isnone", "fresh_call",
